@@ -178,7 +178,7 @@ def _real_decoder() -> Any:
 # -- whole _import_proof on generated databases ----------------------------------------------------
 
 
-def _database(float_order: list, goal_vars: list, labels: list, steps: str) -> tuple:
+def _database(float_order: list, goal_vars: list, labels: list, steps: str, layout: int = 0, earlier: bool = False) -> tuple:
     from proof_generation.metamath import ast as A
     from proof_generation.metamath.converter.converter import MetamathConverter
 
@@ -209,7 +209,19 @@ def _database(float_order: list, goal_vars: list, labels: list, steps: str) -> t
     }
     body = goals[tuple(sorted(goal_vars))]
     proof = '( ' + ''.join(l + ' ' for l in labels) + ') ' + steps
-    st.append(A.ProvableStatement('goal', (app('|-'), body), proof))
+    if earlier:
+        # an earlier theorem over the same variables with another label list (decoded first, by the same converter)
+        st.append(A.ProvableStatement('earlier', (app('|-'), body), '( ax-1 imp-is-pattern ) A'))
+    goal = A.ProvableStatement('goal', (app('|-'), body), proof)
+    if layout == 0:
+        st.append(goal)
+    elif layout == 1:
+        st.append(A.Block((goal,)))
+    else:
+        # the theorem closes a block whose $d names a variable the theorem does not mention
+        # ($d x ph: "x is fresh in ph"; the element variable x does not occur in the theorem)
+        pv = [v for v in goal_vars if v != 'x'][0]
+        st.append(A.Block((A.DisjointStatement((mv('x'), mv(pv))), goal) if 'x' not in goal_vars else (goal,)))
     db = A.Database(tuple(st))
     return MetamathConverter(db), db
 
@@ -217,7 +229,7 @@ def _database(float_order: list, goal_vars: list, labels: list, steps: str) -> t
 BOUNDARY = (1, 2, 20, 21, 22, 120, 121, 620, 621, 3120, 3121)
 
 
-def h_proof(ctx: Any, nvars: int, nlabels: int, nsteps: int, twin: bool = False) -> None:
+def h_proof(ctx: Any, nvars: int, nlabels: int, nsteps: int, layouts: bool = False, twin: bool = False) -> None:
     from itertools import permutations
 
     from proof_generation.metamath import ast as A
@@ -259,10 +271,13 @@ def h_proof(ctx: Any, nvars: int, nlabels: int, nsteps: int, twin: bool = False)
     def patched(self: Any) -> Any:
         return OrderedSet(orig(self))
 
+    layout, earlier = (ctx.choose(3, 'layout'), ctx.choose(2, 'earlier theorem') == 1) if layouts else (0, False)
     A.StructuredStatement.get_metavariables = patched  # type: ignore[method-assign]
     try:
-        conv, db = _database(order, gv, labels, text)
+        conv, db = _database(order, gv, labels, text, layout, earlier)
         proof = conv.get_lemma_by_name('goal').proof
+        if earlier:
+            ep = conv.get_lemma_by_name('earlier').proof
     except Exception as e:
         A.StructuredStatement.get_metavariables = orig  # type: ignore[method-assign]
         ctx.count('converter_raised')
@@ -280,6 +295,11 @@ def h_proof(ctx: Any, nvars: int, nlabels: int, nsteps: int, twin: bool = False)
     want_steps = [0 if s == 'Z' else s for s in steps]
     ctx.check(dict(proof.labels) == want_labels, 'C15.proof.label-table-differs', lambda: f'floats {order} goal over {gv} labels {labels}: got {dict(proof.labels)!r} expected {want_labels!r}')
     ctx.check(list(proof.applied_lemmas) == want_steps, 'C15.proof.steps-differ', lambda: f'steps {steps!r} text {text!r}: got {list(proof.applied_lemmas)!r}')
+    if earlier:
+        want_e = {i + 1: f'{v}-is-pattern' for i, v in enumerate(mand)}
+        for l in ('ax-1', 'imp-is-pattern'):
+            want_e[len(want_e) + 1] = l
+        ctx.check(dict(ep.labels) == want_e and list(ep.applied_lemmas) == [1], 'C15.proof.earlier-theorem-differs', lambda: f'floats {order} goal over {gv}: earlier theorem decoded as {dict(ep.labels)!r} {list(ep.applied_lemmas)!r}, expected {want_e!r} [1]')
 
 
 def setup() -> None:
@@ -301,6 +321,8 @@ def levels(tier: str) -> list[dict]:
     L: list[dict] = []
     for nv, nl, ns in ([(1, 1, 2), (3, 3, 1), (3, 1, 2)] if q else [(1, 2, 3), (3, 3, 2), (3, 1, 3), (2, 2, 4)]):
         L.append(dict(label=f'import_proof/vars<={nv},labels<={nl},steps<={ns}', module=M, fn='h_proof', kwargs=dict(nvars=nv, nlabels=nl, nsteps=ns), budget_s=bud, required=True, twin=(nv == 1)))
+    for nv, nl, ns in ([(3, 2, 1)] if q else [(3, 2, 1), (3, 3, 2)]):
+        L.append(dict(label=f'import_proof/top-level|block|block-with-$d, with and without an earlier theorem/vars<={nv},labels<={nl},steps<={ns}', module=M, fn='h_proof', kwargs=dict(nvars=nv, nlabels=nl, nsteps=ns, layouts=True), budget_s=bud, required=True, twin=False))
     return L
 
 
